@@ -14,7 +14,7 @@ import (
 
 func init() {
 	register(&Rule{
-		ID: "WE-1", Props: []string{"C18"}, Min: 10,
+		ID: "WE-1", Props: []string{"C18"}, Min: 7,
 		Doc: `every write, flush and close on the output path is checked: each call of Write/WriteString/Flush/Close/Sync whose receiver is an output sink
 (io.Writer/io.WriteCloser value, *obiutils.Wfile, *os.File opened for writing, the bufio/gzip writers inside Wfile) must have its error result consumed — tested with a diverging
 (fatal/return) branch, returned, or merged into a returned error. Discarded results (expression statement, blank assignment, defer) are violations.
